@@ -182,3 +182,28 @@ def probe_nodes(with_loopy: bool = True) -> dict[str, Any]:
 def wrap_outputs(node):
     """something a mapper can be called on: arrays as they are, containers as they are"""
     return node
+
+
+def nary_probe_nodes() -> dict[str, Any]:
+    """n-ary kinds with THREE (or more) edges of one class, every edge a distinct leaf — for
+    "only the first / middle / last edge changes" """
+    import pytato as pt
+    from pytato.function import trace_call
+    f64, i64 = np.dtype("float64"), np.dtype("int64")
+
+    def ph(nm, shape=(4, 3), dt=f64):
+        return pt.make_placeholder(nm, shape, dt)
+    out: dict[str, Any] = {}
+    out["Stack_3"] = pt.stack([ph("s3a"), ph("s3b"), ph("s3c")], axis=0)
+    out["Concatenate_3"] = pt.concatenate([ph("c3a"), ph("c3b"), ph("c3c")], axis=1)
+    out["Einsum_3"] = pt.einsum("ij,ij,ij->i", ph("e3a"), ph("e3b"), ph("e3c"))
+    out["IndexLambda_where"] = pt.where(ph("w3c", dt=np.dtype("bool")), ph("w3a"), ph("w3b"))
+    out["DictOfNamedArrays_3"] = pt.make_dict_of_named_arrays({"a": ph("d3a"), "b": ph("d3b"), "c": ph("d3c")})
+    out["AdvancedIndexInContiguousAxes_2idx"] = ph("a3t", (4, 3, 4))[ph("a3i", (2,), i64), ph("a3j", (2,), i64)]
+
+    def f3(a, b, c):
+        return {"o": a + b * c}
+    out["Call_3"] = trace_call(f3, ph("f3a"), ph("f3b"), ph("f3c"))["o"]._container
+    for k in list(out):
+        out[k] = _distinct_children(out[k])
+    return out
